@@ -62,7 +62,7 @@ bool known(const time_zone& tz, const std::string& name) {
     if (zf) {
       std::string bytes((std::istreambuf_iterator<char>(zf)), std::istreambuf_iterator<char>());
       if (bytes.size() > 4 && bytes.compare(0, 4, "TZif") == 0) {
-        fprintf(g_out, "{\"e\":\"Load\",\"z\":0,\"zn\":%s,\"name\":%s,\"bytes\":%s,\"desc\":%s,\"ok\":1,\"isutc\":%d,\"ub\":0}\n",
+        fprintf(g_out, "{\"e\":\"Load\",\"z\":0,\"zn\":%s,\"name\":%s,\"bytes\":%s,\"desc\":%s,\"ok\":1,\"isutc\":%d,\"ub\":0,\"relaxed\":0}\n",
                 vt::jstr(name).c_str(), vt::jstr(name).c_str(), bytes_json(bytes).c_str(), bytes_json(tz.description()).c_str(),
                 tz == utc_time_zone() ? 1 : 0);
         ok = 1;
